@@ -19,6 +19,9 @@ VH_ENTRY vh_fref_alloc() {
 #define ACCEPTED(b) ((b) < 256 * 32)
   ASSUME(bits < 256 * 32);
 #endif
+#ifdef BITS_LO
+  ASSUME(bits >= BITS_LO && bits < BITS_HI);      // the offset range is split over two queries
+#endif
   uint32_t max1 = nondet_u32(), max2 = nondet_u32();
   const unsigned short in1 = bits;
   FeatureRef *f = vh_new<FeatureRef>(2);
